@@ -67,6 +67,7 @@ namespace embedded_pairing::bls12_381 {
 
             int i = 0;
             int16_t u;
+            bool carry = false;
             while (!c.is_zero()) {
                 if (c.is_odd()) {
                     u = (int16_t) (c.bytes[0] & ((1 << (window + 1)) - 1));
@@ -81,6 +82,8 @@ namespace embedded_pairing::bls12_381 {
                     } else {
                         a.bytes[0] = (uint8_t) (-u);
                         c.add(c, a);
+                        /* c + a wrapped around 2^bits iff the sum is below the addend. */
+                        carry = (BigInt<bits>::compare(c, a) == -1);
                     }
                 } else {
                     u = 0;
@@ -88,6 +91,10 @@ namespace embedded_pairing::bls12_381 {
 
                 wnaf[i++] = (int8_t) u;
                 c.template shift_right_in_word<1>(c);
+                if (carry) {
+                    c.bytes[BigInt<bits>::byte_length - 1] |= 0x80;
+                    carry = false;
+                }
             }
             wnaf_size = i;
         }
